@@ -6,7 +6,9 @@ from vlib import nx
 case = {"shr": [[0, 2], [0, 2], [0, 2]], "idx": [0, 1, 2], "off": [0, 0, 0], "props": [{"type": "alldifferent", "vars": [0, 1, 2], "params": []}]}
 for cons in ("bc", "shaving"):
     try:
-        nx.make_solver(nx.build_problem(case), {"cons": cons, "var": "first", "dom": "min"}).find_all()
+        it = nx.make_solver(nx.build_problem(case), {"cons": cons, "var": "first", "dom": "min"}).solve()
+        next(it, None)
+        next(it, None)  # (two solutions: the resume path is compiled too; no full enumeration, which may not end on a broken tree)
     except Exception as e:  # noqa: BLE001
         print("warm: engine raised", repr(e))
 # (no optimisation here: its restart loop is the likeliest place for a broken tree to spin; the two small jitted helpers it
